@@ -786,6 +786,63 @@ theorem C10_notification_verified (nh : Nat) (complete : List Bool) (steps : Lis
   notif_inv steps _ (by intro i hi; simp at hi) i h
 
 
+/-! ## events that are none of the consumers' business -/
+
+/-- **bystander events preserve the consumers' entries.**  Configuration changes (every
+    field, every direction), availability changes (peers arriving, leaving, Have / DontHave /
+    bitmaps, availability reaching 0), unchoke / interested notifications, announces, getters,
+    peer drops and ticks: in every reachable state, every entry that holds a client priority
+    is left exactly as it was (priorities and channel), its channel stays open, every
+    priority count is unchanged, no channel is closed twice and the no-lost-wake-up invariant
+    keeps holding.  Only priority-less idle entries may go.  (The `rdx bys …` stream applies
+    the balance and wake-up oracles to the real handlers after each such event.) -/
+theorem C10_bystander_events_preserve (nh : Nat) (complete : List Bool) (steps : List Step)
+    (b : Bystander) :
+    let s := (({ numHashes := nh, complete := complete } : Sys).run steps)
+    (∀ i e, find s.rs.pieces i = some e → e.prio ≠ [] →
+        find (s.bystander b).rs.pieces i = some e ∧
+        ∀ c, e.done = some c → closeCount (s.bystander b).rs c = 0) ∧
+    (∀ j q, cnt (s.bystander b).rs j q = cnt s.rs j q) ∧
+    (s.bystander b).rs.panicked = false ∧
+    WInv (s.bystander b) ∧
+    (s.bystander b).complete = s.complete ∧ (s.bystander b).pending = s.pending := by
+  intro s
+  have hinv : ChanInv s.rs := inv_sys_run steps (s := { numHashes := nh, complete := complete }) inv_init
+  have hw : WInv s := C10_no_lost_wakeup nh complete steps
+  unfold Sys.bystander
+  by_cases hp : b.prunes = true
+  · rw [if_pos hp]
+    have hinv' : ChanInv (s.step .delIdle).rs := inv_sys_step hinv .delIdle
+    refine ⟨?_, ?_, hinv'.np, winv_step hw .delIdle, rfl, rfl⟩
+    · intro i e he hne
+      have hf : find (s.step .delIdle).rs.pieces i = some e := by
+        show find (delIdle s.rs).pieces i = some e
+        rw [find_delIdle]
+        have : ¬ ∃ r, find s.rs.pieces i = some r ∧ r.prio = [] := by
+          intro ⟨r, hr, hpr⟩
+          rw [he] at hr; simp at hr; subst hr; exact hne hpr
+        rw [if_neg this]; exact he
+      refine ⟨hf, ?_⟩
+      intro c hc
+      obtain ⟨ch, h1, _, h3⟩ := hinv'.ref i e c hf hc
+      simp [closeCount, h1, h3]
+    · intro j q
+      show cnt (delIdle s.rs) j q = cnt s.rs j q
+      exact cnt_delIdle s.rs j q
+  · rw [if_neg hp]
+    refine ⟨?_, fun _ _ => rfl, hinv.np, hw, rfl, rfl⟩
+    intro i e he _
+    refine ⟨he, ?_⟩
+    intro c hc
+    obtain ⟨ch, h1, _, h3⟩ := hinv.ref i e c he hc
+    simp [closeCount, h1, h3]
+
+/-- non-vacuity: a configuration change prunes the idle entry of piece 1 and keeps the
+    consumer's entry of piece 0 with its channel -/
+example : ((({ numHashes := 2, complete := [false, false] } : Sys).run
+    [.request 0 1 true, .idleAdd 1]).bystander (.setConf 0 false false)).rs.pieces =
+    [(0, { prio := [1], done := some 0 })] := by decide
+
 /-! ## the reader as a consumer (tor/reader.go, repaired) -/
 open Storrent.Reader in
 /-- **reader balance — withdrawal.**  `request(-1, -1)` (what `Close`, EOF, cancellation and a
